@@ -78,6 +78,25 @@ def _check_partition(parent_elems, shards, what, contiguous, roundtrip):
     rebuilt = _guard(lambda s=s, state=state: _elements(s.from_state(state)), f'{what}: from_state(shard {i})')
     check(rebuilt == l, 'state-rebuild-differs', f'{what}: shard {i} yields {l}, from_state({state}) yields {rebuilt}')
     # rebuilding from the *root* source gives the same shard too
+  # an iterator of a shard records where it is: after p elements, its state rebuilds exactly the remaining elements
+  # (through the iterator, through the shard and through a second restore in a row)
+  for i, (s, l) in enumerate(zip(shards, lists)):
+    for p in sorted({0, 1, len(l) // 2, max(len(l) - 1, 0), len(l)}):
+      if p > len(l):
+        continue
+      it = iter(s)
+      head = _guard(lambda: [int(next(it)) for _ in range(p)], f'{what}: first {p} elements of shard {i}')
+      st_ = _guard(lambda: it.state, f'{what}: iterator state of shard {i} after {p} elements')
+      if roundtrip:
+        st_ = pickle.loads(pickle.dumps(st_))
+      rest = _guard(lambda: [int(x) for x in it.from_state(st_)], f'{what}: iterator.from_state({st_}) of shard {i}')
+      check(head + rest == l, 'iterator-state-rebuild-differs',
+            f'{what}: shard {i} yields {l}; after {p} elements iterator.from_state({st_}) yields {rest}')
+      it2 = it.from_state(st_)
+      mid = [int(x) for _, x in zip(range(1), it2)]
+      rest2 = _guard(lambda: [int(x) for x in it2.from_state(it2.state)], f'{what}: second restore of shard {i}')
+      check(head + mid + rest2 == l, 'iterator-state-rebuild-differs',
+            f'{what}: shard {i} yields {l}; {p} elements, restore, {len(mid)} element, restore yields {head}+{mid}+{rest2}')
   return lists
 
 
